@@ -81,6 +81,7 @@ class Effects:
         if a.kwarg:
             params.append(a.kwarg.arg)
         env: dict[str, set[str]] = {p: {p} for p in params}
+        shallow: dict[str, set[str]] = {}  # name -> params it is a shallow copy of (fields are shared)
         types: dict[str, Cls | None] = {}
         for x in a.posonlyargs + a.args + a.kwonlyargs:
             types[x.arg] = self._ann_cls(f, x.annotation)
@@ -94,10 +95,15 @@ class Effects:
                 return set()
             if isinstance(e, ast.Name):
                 return set(env.get(e.id, set()))
-            if isinstance(e, ast.Attribute):
-                return roots(e.value)
-            if isinstance(e, ast.Subscript):
-                return roots(e.value)
+            if isinstance(e, (ast.Attribute, ast.Subscript)):
+                r0 = roots(e.value)
+                b = e.value
+                while isinstance(b, (ast.Attribute, ast.Subscript)):
+                    b = b.value
+                if isinstance(b, ast.Name) and b.id in shallow:
+                    # a field of a shallow copy is the original's field
+                    r0 = r0 | shallow[b.id]
+                return r0
             if isinstance(e, ast.Starred):
                 return roots(e.value)
             if isinstance(e, (ast.ListComp, ast.SetComp, ast.DictComp, ast.GeneratorExp, ast.Constant, ast.JoinedStr,
@@ -326,6 +332,18 @@ class Effects:
             if isinstance(t, ast.Name):
                 # weak update (flow-insensitive join keeps earlier aliases only for loops' second pass)
                 env[t.id] = set(r)
+                shallow.pop(t.id, None)
+                if isinstance(value, ast.Call) and value.args:
+                    fn = value.func
+                    nm = fn.id if isinstance(fn, ast.Name) else (fn.attr if isinstance(fn, ast.Attribute) else "")
+                    if nm == "copy" and not (isinstance(fn, ast.Attribute) and not isinstance(fn.value, ast.Name)):
+                        sr = roots(value.args[0])
+                        if sr:
+                            shallow[t.id] = sr
+                    elif nm == "replace" and isinstance(fn, (ast.Name, ast.Attribute)):
+                        sr = roots(value.args[0])
+                        if sr:
+                            shallow[t.id] = sr
                 if value is not None:
                     c = self._expr_cls(f, value, types)
                     if c is not None:
@@ -420,6 +438,25 @@ class Effects:
                             return self._ann_cls(m, m.node.returns)
                 if fn.attr in ("deepcopy", "copy") and e.args:
                     return self._expr_cls(f, e.args[0], types)
+        if isinstance(e, ast.Subscript):
+            # d[k] where d is an attribute annotated dict[K, V] / list[V]
+            base = e.value
+            if isinstance(base, ast.Attribute):
+                rc = self._expr_cls(f, base.value, types)
+                if rc is not None:
+                    for k in rc.mro():
+                        if base.attr in k.fields and k.fields[base.attr] is not None:
+                            ann = k.fields[base.attr]
+                            if isinstance(ann, ast.Constant) and isinstance(ann.value, str):
+                                try:
+                                    ann = ast.parse(ann.value, mode="eval").body
+                                except SyntaxError:
+                                    return None
+                            if isinstance(ann, ast.Subscript) and isinstance(ann.value, ast.Name) and ann.value.id in ("dict", "Dict", "Mapping", "list", "List", "Sequence"):
+                                sl = ann.slice
+                                val = sl.elts[-1] if isinstance(sl, ast.Tuple) else sl
+                                return self._ann_cls(Func("?", k.module, f.node), val)
+            return None
         if isinstance(e, ast.Attribute):
             rc = self._expr_cls(f, e.value, types)
             if rc is not None:
